@@ -35,6 +35,15 @@ var solvers = []solverSpec{
 	{"cvc5-1.0.3", func(f string, ms int) []string {
 		return []string{"cvc5", "--incremental", fmt.Sprintf("--tlimit-per=%d", ms), f}
 	}},
+	// two more configurations of z3 5.1.0 for the standalone race: quantifier-heavy goals are unstable across
+	// configurations (one proves in a second what another does not prove in twenty), so diversity is what makes a
+	// pass robust; a definite answer of any configuration decides the race
+	{"z3-5.1.0/ematch", func(f string, ms int) []string {
+		return []string{"z3-new", fmt.Sprintf("-t:%d", ms), "smt.auto_config=false", "smt.mbqi=false", "smt.qi.eager_threshold=100", f}
+	}},
+	{"z3-5.1.0/arith2", func(f string, ms int) []string {
+		return []string{"z3-new", fmt.Sprintf("-t:%d", ms), "smt.arith.solver=2", f}
+	}},
 }
 
 type cachedRun struct {
